@@ -1095,6 +1095,13 @@ def m_poll_opt_res_map(px, st, fr, ev):
     return outs
 
 
+@model("std::ptr::mut_ptr::<impl *mut T>::cast", "std::ptr::const_ptr::<impl *const T>::cast",
+       "std::ptr::mut_ptr::<impl *mut T>::cast_const", "std::ptr::const_ptr::<impl *const T>::cast_mut",
+       reason="pointer casts change the pointee type only: the same address (what `as *mut U` is in MIR)")
+def m_ptr_cast(px, st, fr, ev):
+    return val(ev["args"][0])
+
+
 # ------------------------------------------------------------------ integers
 
 def bits_of(ev):
